@@ -112,6 +112,12 @@ func c19Check(cs c19Case) (ok bool, sig, expected, observed string) {
 					fail = "illegal-token-position-outside-source"
 				}
 			}
+			// an ILLEGAL token stands on bytes of the source (what is unterminated is reported where it begins,
+			// not behind the last byte, where the end-of-input token sits)
+			if okS && s >= len(src) && len(src) > 0 && fail == "" {
+				fail = "illegal-token-behind-the-last-byte"
+				observed = describe(t) + fmt.Sprintf(" for source of %d bytes", len(src))
+			}
 			// an ILLEGAL token that stands on a byte of the source carries exactly that byte as its text
 			// (the one raised at the end of the input, for something unterminated, has no byte to carry)
 			if okS && s < len(src) && fail == "" {
@@ -305,7 +311,7 @@ func init() {
 			}
 			return map[string]any{"lexemes": len(c19Lexemes), "seq_len": 4, "corpus": len(c19Corpus)}
 		},
-		Assume: []string{"the terminating ILLEGAL token is not required to cover a lexeme (only tokens before it and EOF are compared)", "an unterminated string is only required to extend to the last byte"},
+		Assume: []string{"the terminating ILLEGAL token is compared by its start (inside the source) and, when it is one byte long, by its text", "an unterminated string is only required to extend to the last byte"},
 		Run:    c19Run,
 	}
 	registerTyped(p, c19Check)
